@@ -259,14 +259,42 @@ def c17e(ctx):
               'the only flow from query.dimensions into the upstream parameters is dimensions_for_params(self.fwd_req_params)', fn,
               fail='query.dimensions reaches the upstream request parameters without the forward_req_params filter')
     dp = ctx.fn('mapproxy/layer.py:MapQuery.dimensions_for_params')
-    rets = returns_of(dp.node)
+    # shape-agnostic: some iteration over self.dimensions.items() with target (K, V) keeps K -> V exactly under `K.lower() in P`,
+    # where P is the lower-cased parameter list
+    ddefs = Defs(dp.node)
+    par = dp.params[1] if len(dp.params) > 1 else 'params'
+
+    def lowered(e):
+        forms = [e] + ([v for v, sel in ddefs.of(e.id) if sel is None] if isinstance(e, ast.Name) else [])
+        for f in forms:
+            if is_call(f, 'set', 'list', 'tuple', 'frozenset') and f.args:
+                f = f.args[0]
+            if isinstance(f, (ast.ListComp, ast.SetComp, ast.GeneratorExp)) and len(f.generators) == 1 and not f.generators[0].ifs and \
+                    unparse(f.elt) == '%s.lower()' % unparse(f.generators[0].target):
+                src = f.generators[0].iter
+                if unparse(src) == par or (isinstance(src, ast.Name) and src.id != getattr(e, 'id', None) and lowered(src)):
+                    return True
+        return False
+
+    def keeps(test, k):
+        return isinstance(test, ast.Compare) and len(test.ops) == 1 and isinstance(test.ops[0], ast.In) and \
+            unparse(test.left) == '%s.lower()' % k and lowered(test.comparators[0])
     ok = False
-    for r in rets:
-        for x in ast.walk(r.value):
-            if isinstance(x, (ast.GeneratorExp, ast.DictComp, ast.ListComp)):
-                gen = x.generators[0]
-                ok = unparse(gen.iter) == 'self.dimensions.items()' and len(gen.ifs) == 1 and \
-                    unparse(gen.ifs[0]).replace(' ', '') in ('k.lower()inparams',)
+    for x in ast.walk(dp.node):
+        if isinstance(x, (ast.GeneratorExp, ast.DictComp, ast.ListComp)) and x.generators and unparse(x.generators[0].iter) == 'self.dimensions.items()':
+            gen = x.generators[0]
+            if isinstance(gen.target, ast.Tuple) and len(gen.target.elts) == 2:
+                k, v = (unparse(e) for e in gen.target.elts)
+                elt_ok = (isinstance(x, ast.DictComp) and unparse(x.key) == k and unparse(x.value) == v) or \
+                    (not isinstance(x, ast.DictComp) and unparse(x.elt).replace(' ', '') == '(%s,%s)' % (k, v))
+                ok = ok or (len(gen.ifs) == 1 and keeps(gen.ifs[0], k) and elt_ok)
+        if isinstance(x, ast.For) and unparse(x.iter) == 'self.dimensions.items()' and isinstance(x.target, ast.Tuple) and len(x.target.elts) == 2:
+            k, v = (unparse(e) for e in x.target.elts)
+            if len(x.body) == 1 and isinstance(x.body[0], ast.If) and not x.body[0].orelse and keeps(x.body[0].test, k) and len(x.body[0].body) == 1:
+                st = x.body[0].body[0]
+                ok = ok or (isinstance(st, ast.Assign) and isinstance(st.targets[0], ast.Subscript) and unparse(st.targets[0].slice) == k and
+                            unparse(st.value) == v and
+                            any(isinstance(r.value, ast.Name) and r.value.id == unparse(st.targets[0].value) for r in returns_of(dp.node)))
     ctx.check(ok, 'MapQuery.dimensions_for_params:filter', 'a dimension is kept iff its lower-cased name is in the given parameter set', dp,
               fail='dimensions_for_params does not filter by the configured parameter names')
     up = ctx.fn('mapproxy/service/wms.py:WMSServer.update_query_with_fwd_params')
